@@ -46,7 +46,45 @@ let err_name = function
   | EShort -> "EShort" | EFuel -> "EFuel" | EStop -> "EStop" | EOther -> "EOther"
 let res f = function Ok a -> "ok " ^ f a | Err e -> "err " ^ err_name e
 
-let dispatch (cmd : string) (a : string array) : string =
+
+(* ---------- Las model glue ---------- *)
+let explode s = List.init (String.length s) (String.get s)
+let ascii_of_char c = let n = Char.code c in let b i = (n lsr i) land 1 = 1 in
+  Ascii (b 0, b 1, b 2, b 3, b 4, b 5, b 6, b 7)
+let char_of_ascii = function Ascii (b0, b1, b2, b3, b4, b5, b6, b7) ->
+  let v b i = if b then 1 lsl i else 0 in
+  Char.chr (v b0 0 + v b1 1 + v b2 2 + v b3 3 + v b4 4 + v b5 5 + v b6 6 + v b7 7)
+let coq_string_of s = List.fold_right (fun c acc -> String (ascii_of_char c, acc)) (explode s) EmptyString
+let rec string_of_coq = function EmptyString -> "" | String (c, r) -> Stdlib.String.make 1 (char_of_ascii c) ^ string_of_coq r
+let value_of_tok t = if String.length t > 0 && t.[0] = 'x' then VBytes (bytes_of_tok t) else VInt (z_of_string t)
+let tok_of_value = function VInt v -> string_of_z v | VBytes b -> tok_of_bytes b
+let split_on c s = if s = "-" || s = "" then [] else String.split_on_char c s
+let assoc_of_tok t =
+  List.map (fun e -> match String.index_opt e '=' with
+    | Some i -> (coq_string_of (String.sub e 0 i), value_of_tok (String.sub e (i + 1) (String.length e - i - 1)))
+    | None -> failwith ("bad assoc entry " ^ e)) (split_on '|' t)
+let tok_of_assoc a = if a = [] then "-" else
+  String.concat "|" (List.map (fun (n, v) -> string_of_coq n ^ "=" ^ tok_of_value v) a)
+let vlr_of_tok t = match String.split_on_char ':' t with
+  | [u; r; d; p] -> { v_uid = bytes_of_tok u; v_rid = z_of_string r; v_desc = bytes_of_tok d; v_data = bytes_of_tok p }
+  | _ -> failwith ("bad vlr " ^ t)
+let vlrs_of_tok t = List.map vlr_of_tok (split_on '|' t)
+let tok_of_vlr v = String.concat ":" [tok_of_bytes v.v_uid; string_of_z v.v_rid; tok_of_bytes v.v_desc; tok_of_bytes v.v_data]
+let tok_of_vlrs l = if l = [] then "-" else String.concat "|" (List.map tok_of_vlr l)
+let rec chunk n l = if l = [] then [] else
+  let rec take k l acc = if k = 0 then (List.rev acc, l) else match l with [] -> (List.rev acc, []) | x :: r -> take (k - 1) r (x :: acc) in
+  let (a, b) = take n l [] in a :: chunk n b
+let recs_of_tok ps t = chunk ps (bytes_of_tok t)
+let tok_of_recs l = tok_of_bytes (List.concat l)
+(* x -> bits of (float x * scale + offset) in IEEE binary64: the one float formula of header.grow *)
+let i64_of_z zv = Int64.of_string ("0u" ^ string_of_z zv)
+let z_of_i64 i = z_of_string (Printf.sprintf "%Lu" i)
+let ap s o x =
+  let xf = float_of_string (string_of_z x) in
+  z_of_i64 (Int64.bits_of_float (xf *. Int64.float_of_bits (i64_of_z s) +. Int64.float_of_bits (i64_of_z o)))
+let unit_res = function Ok _ -> "ok" | Err e -> "err:" ^ err_name e
+
+let dispatch cmd a =
   let zi i = z_of_string a.(i) in
   match cmd with
   | "ge_set" -> string_of_z (ge_set (nat_of_int (int_of_string a.(0))) (zi 1) (bool_of_tok a.(2)))
@@ -59,6 +97,47 @@ let dispatch (cmd : string) (a : string array) : string =
   | "fmt_to_uncompressed" -> string_of_z (compressed_id_to_uncompressed (zi 0))
   | "fmt_to_compressed" -> string_of_z (uncompressed_id_to_compressed (zi 0))
   | "lsb" -> string_of_z (least_significant_bit_set (zi 0))
+  | "null_pad" -> tok_of_bytes (null_pad (bytes_of_tok a.(0)) (nat_of_int (int_of_string a.(1))) (bool_of_tok a.(2)))
+  | "enc_vlrs" -> res tok_of_bytes (enc_vlrs (bool_of_tok a.(0)) (vlrs_of_tok a.(1)))
+  | "dec_vlrs" -> res (fun (l, r) -> tok_of_vlrs l ^ " " ^ tok_of_bytes r)
+                    (dec_vlrs (bool_of_tok a.(0)) (nat_of_int (int_of_string a.(1))) (bytes_of_tok a.(2)))
+  | "enc_header" -> res (fun (h, b) -> tok_of_bytes b ^ " " ^ tok_of_assoc h)
+                      (enc_header (assoc_of_tok a.(0)) (vlrs_of_tok a.(1)) (bool_of_tok a.(2)))
+  | "dec_header" ->
+    res (fun rh -> String.concat " " [tok_of_assoc rh.rh_fields; tok_of_vlrs rh.rh_vlrs;
+                    (match rh.rh_evlrs with None -> "none" | Some l -> "some:" ^ tok_of_vlrs l);
+                    string_of_z rh.rh_fmt; tok_of_bool rh.rh_compressed; string_of_z rh.rh_psize; string_of_z rh.rh_offset])
+      (dec_header (bytes_of_tok a.(0)) (bool_of_tok a.(1)))
+  | "file_of" -> let ps = int_of_string a.(3) in
+    res tok_of_bytes (file_of ap (assoc_of_tok a.(0)) (vlrs_of_tok a.(1)) (zi 2) (recs_of_tok ps a.(4)) (vlrs_of_tok a.(5)))
+  | "wrun" ->
+    (match wopen (assoc_of_tok a.(0)) (vlrs_of_tok a.(1)) (zi 2) with
+     | Err e -> "open-err:" ^ err_name e
+     | Ok s0 ->
+       let ps = int_of_string a.(3) in
+       let ops = List.map (fun t ->
+         match t.[0] with
+         | 'P' -> WPoints (recs_of_tok ps (String.sub t 2 (String.length t - 2)), t.[1] = 'T')
+         | 'E' -> WEvlrs (vlrs_of_tok (String.sub t 1 (String.length t - 1)))
+         | _ -> WClose) (Array.to_list (Array.sub a 4 (Array.length a - 4))) in
+       let (s, outs) = wrun ap s0 ops in
+       String.concat "," (List.map unit_res outs) ^ " " ^ tok_of_bytes s.w_file)
+  | "arun" -> let ps = int_of_string a.(1) in
+    (match aopen (bytes_of_tok a.(0)) with
+     | Err e -> "open-err:" ^ err_name e
+     | Ok s0 ->
+       let chunks = List.map (fun t -> (recs_of_tok ps (String.sub t 1 (String.length t - 1)), t.[0] = 'T'))
+           (Array.to_list (Array.sub a 2 (Array.length a - 2))) in
+       let (s, outs) = List.fold_left (fun (s, outs) (c, same) ->
+           let (s', o) = apoints ap s c same in (s', outs @ [unit_res o])) (s0, []) chunks in
+       String.concat "," outs ^ " " ^ res tok_of_bytes (aclose s))
+  | "read_file" ->
+    res (fun lf -> let rh = lf.lf_h in String.concat " " [tok_of_assoc rh.rh_fields; tok_of_vlrs rh.rh_vlrs;
+                    (match rh.rh_evlrs with None -> "none" | Some l -> "some:" ^ tok_of_vlrs l);
+                    string_of_z rh.rh_fmt; string_of_z rh.rh_psize; string_of_z rh.rh_offset; tok_of_recs lf.lf_points])
+      (read_file (bytes_of_tok a.(0)))
+  | "read_records" -> res tok_of_recs (read_records (bytes_of_tok a.(0)) (zi 1) (zi 2) (zi 3) (zi 4))
+  | "compat" -> tok_of_bool (compat (zi 0) (zi 1) (zi 2))
   | _ -> "unknown-command " ^ cmd
 
 let () =
